@@ -10,13 +10,14 @@ sys.path.insert(0, VERIF)
 sys.path.insert(0, '/repo')
 
 PROPS = [json.loads(l)['id'] for l in open(os.path.join(VERIF, 'properties.jsonl'))]
-NOT_APPLICABLE = {}   # property -> reason (only for properties the family genuinely cannot decide)
+NOT_APPLICABLE = {}
+ACCEPTED = [l.strip() for l in open(os.path.join(VERIF, 'tools', 'accepted.txt')) if l.strip() and not l.startswith('#')]   # property -> reason (only for properties the family genuinely cannot decide)
 
 checks = []
 na = []
 for pid in PROPS:
     path = os.path.join(VERIF, 'checks', pid.lower() + '.py')
-    if not os.path.exists(path):
+    if not os.path.exists(path) or pid not in ACCEPTED:
         na.append({'property_id': pid, 'reason': NOT_APPLICABLE.get(pid, 'monitor not built yet (work in progress); no claim made')})
         continue
     mod = importlib.import_module('checks.' + pid.lower())
